@@ -63,6 +63,9 @@ Fixpoint check_steps (tags : list nat) (cur other : obj) (ops : list op) (steps 
       ++ flag (negb (match o with OAsMulti => Nat.eqb (s_kind s) 1 | _ => false end
                      && negb (nl_eqb (firstn 2 (o_attrs (s_res s)) ++ skipn 3 (o_attrs (s_res s)))
                                      (firstn 2 (o_attrs cur) ++ skipn 3 (o_attrs cur))))) 3
+      ++ flag (negb (match o with OAsSat _ => Nat.eqb (s_kind s) 1 | _ => false end
+                     && negb (Nat.eqb (nth 0 (o_attrs (s_res s)) 999) (nth 0 (o_attrs cur) 0)
+                              && (Nat.eqb (o_cls (s_res s)) 18 || Nat.eqb (o_cls (s_res s)) 19)))) 3
       ++ flag (Nat.eqb (o_cls (s_cur s)) (o_cls cur) && nl_eqb (o_attrs (s_cur s)) (o_attrs cur)) 4
       ++ flag (profile_ok tags (s_cur s) && (negb (Nat.eqb (s_kind s) 1) || profile_ok tags (s_res s))) 5
       ++ flag (negb (always_derivable (opname o) && prom && Nat.eqb (s_kind s) 0)) 6
